@@ -4,6 +4,8 @@
    (P, W: the harness sends every segment in an IPv4 datagram whose buffer / Ethernet frame is zero-padded to the
     minimum frame size; the payload is what the IP total length delimits, which is what the model is given.
     W order: s / c = bursts, w<ms> = first segment, <ms> ms of silence, then the rest; the model is order-independent.)
+   (P flow numbers also select what the model ignores, as the code must: 20..29 / 40..49 = SYN on the first data segment
+    (TCP Fast Open), 30..39 = RST|PSH|ACK on every segment, 40..59 = IPv6; W order y / y6 / r = the same for the pool.)
    W <workers> <nconn> <order> <chunk> ...   huginn_net_tls::WorkerPool (batch 32), <nconn> connections delivering the same
                                     chunks back-to-back; result "<number of results> <token | MIXED | ->".  MODEL: every
                                     connection behaves as one connection alone on a worker's flow table (C08_analyzer holds
